@@ -7,7 +7,12 @@ order, every field numerically equal, comments in order.  Corrupted texts (one m
 line at every line position, undecodable bytes at several offsets of a 20 KB body) must
 make the read RAISE; returning a table is the violation.  ``sort_nodes=True`` on files
 with arbitrary distinct ids in arbitrary row order must give a tree isomorphic to the
-file's graph.
+file's graph.  SIZE is part of the input space (``check_large``): generated files of several
+MiB (well beyond every plausible line / decoder / read buffer) and files whose byte count
+sits just around 8 KiB / 64 KiB / 1 MiB, through every source kind and through read_swc,
+Tree.from_swc and the lazy Population read; the oracle there is the generator itself (row
+count, every id / x / pid by formula, first and last row, every comment incl. one behind the
+last row, a malformed line in the last 1 % must raise).
 """
 from __future__ import annotations
 
@@ -31,7 +36,9 @@ TRAILS = ["", " ", "\t"]
 EOLS = ["\n", "\r\n"]
 EXTRA_PLAIN = ["0.5", "-2", "+3.0", "7", ".25", "10"]
 EXTRA_EXP = ["1e3", "2.5E-1"]
-COMMENT_LINES = ["# hello", "#", "#x", "  # indented", "# 1 1 0 0 0 1 -1", "## double", "#\ttab", "# trailing  ", "#id type"]
+COMMENT_LINES = ["# hello", "#", "#x", "  # indented", "# 1 1 0 0 0 1 -1", "## double", "#\ttab", "# trailing  ", "#id type",
+                 # characters str.splitlines() takes for line ends but a file handle does not: the comment stays ONE line
+                 "# form\x0cfeed", "# group\x1dseparator 5 3 1 1 1 1 4"]
 BLANK_LINES = ["", " ", "\t", "  \t "]
 SRCS = ["text", "bytes", "path"]
 COLS = ["id", "type", "x", "y", "z", "r", "pid"]
@@ -360,7 +367,102 @@ def check_sorted(rep, spec, base):
             rep.add("Tree.from_swc", "sorted-read-isomorphic", spec, bad[0], bad[1])
 
 
-CHECKS = dict(good=check_good, bad=check_bad, undecodable=check_undecodable, sorted=check_sorted)
+
+# ---------------------------------------------------------------- size as part of the input space
+
+LARGE_BAD = ["12 3 1.0 2.0 3.0 1.0", "12 3 1.0 abc 3.0 1.0 5", "this is not a row"]
+
+
+def large_text(spec):
+    """Deterministic big SWC text described by a small spec (the spec, not the text, is what gets replayed):
+    rows (number of data rows), width (blanks padded into every row: many bytes per parsed row), eol, comment_every / blank_every,
+    pad_to (exact byte count of the well-formed text, reached with one long comment line in front of the first row), bad = {frac, line} (a malformed line at
+    that fraction of the lines).  Returns (text, n_rows, comments, bad_line_number | None).  Row i (0-based) reads
+    `i+1  type  i/4  (i%7).25  -(i%3).125  1.0  pid` with pid = -1 for the first row, else i: every column is known by formula."""
+    n, width, eol = spec["rows"], spec.get("width", 0), spec.get("eol", "\n")
+    ce, be = spec.get("comment_every", 0), spec.get("blank_every", 0)
+    pad = " " * (width // 2)
+    lead = " " * (width - width // 2)
+    lines = ["# generated %d rows%s" % (n, eol)]
+    comments = ["generated %d rows" % n]
+    for i in range(n):
+        lines.append(f"{lead}{i + 1} {1 if i == 0 else 3} {i * 0.25:.2f} {i % 7}.25{pad} -{i % 3}.125 1.0 {-1 if i == 0 else i}{eol}")
+        if be and (i + 1) % be == 0:
+            lines.append(eol)
+        if ce and (i + 1) % ce == 0:
+            comments.append("checkpoint %d" % (i + 1))
+            lines.append("# checkpoint %d%s" % (i + 1, eol))
+    comments.append("end of file")
+    lines.append("# end of file" + eol)  # a comment BEHIND the last row: must come back
+    if spec.get("pad_to"):
+        size = sum(len(x) for x in lines)
+        fill = spec["pad_to"] - size - len("#" + eol)
+        if fill < 1:
+            raise AssertionError("harness error: pad_to smaller than the text")
+        comments.insert(1, "p" * fill)  # right behind the first line: the rows and the closing comment sit around byte `pad_to`
+        lines.insert(1, "#" + "p" * fill + eol)
+    bad_at = None
+    if spec.get("bad"):
+        bad_at = min(len(lines) - 1, max(1, int(len(lines) * spec["bad"]["frac"])))
+        lines.insert(bad_at, spec["bad"]["line"] + eol)
+    return "".join(lines), n, comments, bad_at
+
+
+def check_large(rep, spec, base):
+    """spec: kind='large', rows, width, eol, comment_every, blank_every, pad_to, bad, src, fn ('read_swc'|'Tree.from_swc'|'Population')"""
+    from swcgeom.core import Population, Tree
+    from swcgeom.core.swc_utils import read_swc
+
+    text, n, comments, bad_at = large_text(spec)
+    src, name = spec["src"], spec["fn"]
+    opts = dict(reset_index=False)
+    size = len(text.encode("utf-8"))
+    if spec.get("pad_to") and not spec.get("bad") and size != spec["pad_to"]:
+        raise AssertionError(f"harness error: text has {size} bytes, wanted {spec['pad_to']}")
+    if name == "Population":
+        if src != "path":
+            raise AssertionError("harness error: a Population reads paths")
+        fn = lambda p, **kw: Population([p], lazy_loading=True, **kw)[0]  # the lazy read happens at the subscript
+    else:
+        fn = read_swc if name == "read_swc" else Tree.from_swc
+    res, exc, _ = _call(fn, text, src, base, opts)
+    what = f"{n} rows, {size} bytes"
+    if spec.get("bad"):
+        if exc is None:
+            got = len(res[0]) if name == "read_swc" else res.number_of_nodes()
+            rep.add(name, "malformed-line-raises", spec, f"no error; returned {got} rows (text: {what}, malformed line {spec['bad']['line']!r} is line {bad_at + 1})",
+                    "an exception", "shortened table returned" if got < n else "malformed line silently dropped")
+        return
+    if exc is not None:
+        rep.add(name, "operation-raises", spec, _exc(exc), f"table with {n} rows", "large")
+        return
+    if name == "read_swc":
+        df, got_comments = res
+        got_n, col = len(df), (lambda c: df[c].to_numpy())
+    else:
+        got_n, col, got_comments = res.number_of_nodes(), (lambda c: np.asarray(res.get_ndata(c))), res.comments
+    if got_n != n:
+        rep.add(name, "one-node-per-row", spec, f"{got_n} rows (text: {what})", f"{n} rows", "large: shortened table" if got_n < n else "large")
+    else:
+        i = np.arange(n)
+        want = dict(id=i + 1, type=np.where(i == 0, 1, 3), x=i * 0.25, y=(i % 7) + 0.25, z=-((i % 3) + 0.125), r=np.ones(n), pid=np.where(i == 0, -1, i))
+        for c in COLS:
+            g = np.asarray(col(c), dtype=np.float64)
+            w = np.asarray(want[c], dtype=np.float64)
+            if name != "read_swc" and c in "xyzr":
+                w = w.astype(np.float32).astype(np.float64)
+            if not np.array_equal(g, w):
+                j = int(np.argmax(g != w))
+                rep.add(name, "fields-equal", spec, f"column {c}, row {j} of {n}: {g[j]}", f"{w[j]}", "large: last row" if j == n - 1 else "large")
+                break
+    gc = [c.strip() for c in got_comments]
+    if gc != comments:
+        k = next((j for j, (a, b) in enumerate(zip(gc, comments)) if a != b), min(len(gc), len(comments)))
+        rep.add(name, "comments-in-order", spec, f"{len(gc)} comments, first difference at #{k}: {gc[k][:40] if k < len(gc) else '<missing>'!r}",
+                f"{len(comments)} comments, #{k} = {comments[k][:40] if k < len(comments) else '<none>'!r}", "large")
+
+
+CHECKS = dict(good=check_good, bad=check_bad, undecodable=check_undecodable, sorted=check_sorted, large=check_large)
 
 
 # ---------------------------------------------------------------- text assembly
@@ -570,6 +672,48 @@ def run(ctx):
                 opts["extra_cols"] = ["a", "b"][: rng.randint(1, nfx)]
             go("good-random", dict(kind="good", text=text, src=rng.choice(SRCS), opts=opts))
 
+        # (6) size.  Quick: one dense file of ~100k rows (3.6 MiB) and wide-row files of 3.3 MiB (12k rows: cheap to parse, same bytes
+        # through every buffer) through every source kind x read_swc / Tree.from_swc and through the lazy Population read, each also with a
+        # malformed line in the LAST 1 % of the lines (must raise); files of exactly B-1 / B / B+1 bytes and B + a line for B = 8 KiB, 64 KiB
+        # (thorough: 1 MiB as well, every source, every reader, malformed line as the very last line and at 99.5 %)
+        kl = 0
+
+        def large(group, **kw):
+            nonlocal kl
+            kl += 1
+            go(group, dict(kind="large", **kw))
+
+        dense = dict(rows=100000, width=0, comment_every=25000, blank_every=0, eol="\n")
+        large("large-dense", **dense, src="path", fn="read_swc")
+        large("large-dense", **dense, src="bytes", fn="read_swc", bad=dict(frac=0.995, line=LARGE_BAD[0]))
+        if thorough:
+            for src in SRCS:
+                for fn in ("read_swc", "Tree.from_swc"):
+                    large("large-dense", **dict(dense, eol="\r\n"), src=src, fn=fn)
+                    large("large-dense", **dense, src=src, fn=fn, bad=dict(frac=0.9999, line=LARGE_BAD[1]))
+        wide = dict(rows=12000, width=250, comment_every=1000, blank_every=997)
+        for si, src in enumerate(SRCS):
+            for fi, fn in enumerate(("read_swc", "Tree.from_swc")):
+                eol = EOLS[(si + fi) % 2]
+                large("large-wide", **wide, eol=eol, src=src, fn=fn)
+                large("large-wide", **wide, eol=eol, src=src, fn=fn, bad=dict(frac=(0.991, 0.999, 0.9999)[(si + fi) % 3], line=LARGE_BAD[(si + fi) % 3]))
+        large("large-wide", **wide, eol="\n", src="path", fn="Population")
+        large("large-wide", **wide, eol="\n", src="path", fn="Population", bad=dict(frac=0.995, line=LARGE_BAD[1]))
+        bounds = [8192, 65536] + ([1 << 20] if thorough else [])
+        for B in bounds:
+            rows_for = max(50, B // 36)  # ~30 bytes per row: the rows alone stay below B, the padding comment fills up to the byte
+            for delta in ((-1, 0, 1, 31, B + 1) if thorough else (0, 1)):
+                for si, src in enumerate(SRCS):
+                    for fn in (("read_swc", "Tree.from_swc") if thorough else ("read_swc",)):
+                        spec = dict(rows=rows_for, width=0, comment_every=0, blank_every=0, eol=EOLS[(si + (delta > 0)) % 2], pad_to=B + delta, src=src, fn=fn)
+                        large("size-boundary", **spec)
+                        large("size-boundary", **spec, bad=dict(frac=1.0, line=LARGE_BAD[(si + delta) % 3]))
+                        if thorough:
+                            large("size-boundary", **spec, bad=dict(frac=0.995, line=LARGE_BAD[(si + 1) % 3]))
+            if thorough:
+                large("size-boundary", rows=rows_for, width=0, comment_every=0, blank_every=0, eol="\n", pad_to=B + 1, src="path", fn="Population")
+                large("size-boundary", rows=rows_for, width=0, comment_every=0, blank_every=0, eol="\n", pad_to=B + 1, src="path", fn="Population", bad=dict(frac=1.0, line=LARGE_BAD[0]))
+
         rep.flush(ctx)
         for s in sorted(rep.notes):
             ctx.notes.append(s)
@@ -579,7 +723,11 @@ def run(ctx):
                  "(6 fields, 1 field, 'abc' and '1,5' in each of the 7 columns) inserted at EVERY line position of " + str(len(bases)) + " base texts (sources and option sets {}, reset_index=False, sort_nodes=True rotating) and of a plain 2-row text (all 3 sources x 3 option sets); b'\\xff\\xfe' at "
                  + str(len(offs)) + " offsets of a 20 KB body (raw offset and inside a comment) from BytesIO and path; sort_nodes=True on all parent tables <= "
                  + str(5 if thorough else 4) + " nodes x all row orders x 2 id assignments (quick: 1 for 4 nodes) + random tail. Oracle: 15-line reference reader (str.split + int/float); "
-                 "'must raise' for corrupted inputs. Every case is non-trivial (>= 1 data row).", exhaustive=False)
+                 "'must raise' for corrupted inputs. Every case is non-trivial (>= 1 data row). SIZE: " + str(kl) + " generated big files -- 100 000 rows / 3.6 MiB dense, "
+                 "12 000 wide rows / 3.3 MiB (LF and CRLF, comments every 1000 rows, blank lines, a comment behind the last row) through StringIO / BytesIO / path x read_swc / "
+                 "Tree.from_swc and the lazy Population read, each also with a malformed line at 99.1 - 99.99 % of the lines (must raise); files of exactly B, B+1 "
+                 "(thorough: B-1, B+31, 2B+1) bytes for B = 8 KiB, 64 KiB (thorough: 1 MiB) with a malformed LAST line; oracle = the generator's formulas (row count, "
+                 "all seven columns, every comment).", exhaustive=False)
     finally:
         shutil.rmtree(base, ignore_errors=True)
 
